@@ -36,6 +36,34 @@ def id_key_reads(prog, draft):
     return reads_on_names(f, {ps[0]}, "schema", calls_of(prog))
 
 
+def _id_of_eval(prog, f, key):
+    """id_of evaluated by sa/tokeval.py: the id is the member's value *as written* -- what the class is registered under, what the
+    resolver starts from.  '' | difference | None (outside the fragment)."""
+    from ..tokeval import Ev, Undecided, PyRaise
+    other = "id" if key == "$id" else "$id"
+    rows = [("http://example.com/schemas/meta#v1", None), ("http://example.com/s#", None), ("urn:example:x", None), ("sub/dir/", None), ("#anchor", None),
+            ("HTTP://EXAMPLE.com/%7Euser/a%20b?q=1#/definitions/x", None), ("", None)]
+    try:
+        for val, _ in rows:
+            got = Ev(prog, fuel=2000).call_func(f, [{key: val, other: "http://other/", "title": "t"}], {})
+            if got != val:
+                return "id_of of a schema whose %r is %r gives %r: the id must come back as written" % (key, val, got)
+        for sch in ({}, {other: "http://other/"}, {"title": "x"}):
+            got = Ev(prog, fuel=2000).call_func(f, [dict(sch)], {})
+            if got != "":
+                return "id_of of a schema without %r gives %r, expected ''" % (key, got)
+        if key == "$id":
+            for b in (True, False):
+                got = Ev(prog, fuel=2000).call_func(f, [b], {})
+                if got != "":
+                    return "id_of of the boolean schema %r gives %r, expected ''" % (b, got)
+    except Undecided:
+        return None
+    except PyRaise as pr:
+        return "id_of raises %s (%s)" % (pr.name, pr.msg)
+    return ""
+
+
 def rule_id_key(ctx, rid):
     prog = ctx.prog
     r = ctx.rule(rid, "id_of of each draft reads exactly that draft's id key", floor=4)
@@ -45,8 +73,11 @@ def rule_id_key(ctx, rid):
         keys = {x.key for x in rs if x.kind in ("get", "getitem", "in", "pop")}
         bad_kinds = [x for x in rs if x.kind not in ("get", "getitem", "in")]
         where = site(dr.id_of)
-        if keys == {spec.ID_KEY[d]} and not bad_kinds:
-            r.ok(where + " [%s]" % d, "reads %r" % spec.ID_KEY[d])
+        sem = _id_of_eval(prog, dr.id_of, spec.ID_KEY[d])
+        if sem:
+            r.fail("%s|id-value" % d, where, "%s: %s" % (d, sem))
+        elif keys == {spec.ID_KEY[d]} and not bad_kinds:
+            r.ok(where + " [%s]" % d, "reads %r%s" % (spec.ID_KEY[d], "" if sem is None else "; returns the member's value as written (fragments, escapes, relative forms kept), '' when absent / for a boolean schema"))
         else:
             r.fail("%s|id-key|%s" % (d, sorted(map(str, keys))), where,
                    "%s: id_of reads %s, the draft's id key is %r" % (d, sorted(map(str, keys)) + [x.kind for x in bad_kinds], spec.ID_KEY[d]))
